@@ -195,6 +195,54 @@ def _t_two_setindex():
     return dx.concat([d.set_index("c", npartitions=2), d.set_index("c", npartitions=4)])
 
 
+def _pairs():
+    """Sibling expressions over ONE frame that differ in a single parameter, combined in one graph: any helper key that
+    does not depend on the parameter collides (the real code merges layers with toolz.merge, which overwrites silently)."""
+    import dask_expr as dx
+
+    pdf, d = _t_base(48, 6)
+    u = d.clear_divisions()
+    s = d.b
+    out = {
+        "quantile": lambda: s.quantile(0.9) - s.quantile(0.1),
+        "quantile_list": lambda: dx.concat([s.quantile([0.1, 0.5]), s.quantile([0.2, 0.5])]),
+        "frame_quantile": lambda: dx.concat([d[["a", "b"]].quantile(0.25), d[["a", "b"]].quantile(0.75)]),
+        "rolling": lambda: s.rolling(2).sum() + s.rolling(3).sum(),
+        "shift": lambda: s.shift(1) + s.shift(2) + s.shift(-1),
+        "diff": lambda: s.diff(1) - s.diff(2),
+        "nlargest": lambda: dx.concat([d.nlargest(2, "b"), d.nlargest(3, "b"), d.nsmallest(2, "b")]),
+        "head": lambda: dx.concat([d.head(2, compute=False), d.head(5, npartitions=2, compute=False), d.tail(3, compute=False)]),
+        "cum": lambda: d[["a", "b"]].cumsum() + d[["a", "b"]].cummax() + d[["a", "b"]].cumsum(skipna=False),
+        "value_counts": lambda: dx.concat([d.a.value_counts(split_out=2), d.a.value_counts(split_out=3), d.a.value_counts(sort=False)]),
+        "groupby_split": lambda: d.groupby("a").b.sum(split_out=2) + d.groupby("a").b.sum(split_out=1) + d.groupby("a").b.sum(split_every=2),
+        "sum_split": lambda: s.sum(split_every=2) + s.sum(split_every=4) + s.mean(split_every=2),
+        "shuffle_branch": lambda: dx.concat([d.shuffle("a", max_branch=2), d.shuffle("a", max_branch=3), d.shuffle("a", npartitions=4, max_branch=2)]),
+        "repartition_div": lambda: dx.concat([d.repartition(divisions=[0, 10, 47]), d.repartition(divisions=[0, 20, 47]), d.repartition(divisions=[0, 10, 30, 47], force=True)]),
+        "repartition_size": lambda: dx.concat([d.repartition(partition_size="300B"), d.repartition(partition_size="500B")]),
+        "sort_np": lambda: dx.concat([d.sort_values("c", npartitions=2), d.sort_values("c", npartitions=3), d.sort_values("c", ascending=False)]),
+        "merge_bcast": lambda: dx.concat([d.merge(d[["a"]].drop_duplicates(), on="a", broadcast=True), d.merge(d[["a"]].drop_duplicates(), on="a", broadcast=False)]),
+        "merge_how": lambda: dx.concat([d.merge(d[["a", "rid"]].rename(columns={"rid": "r2"}), on="a", how="left", npartitions=2), d.merge(d[["a", "rid"]].rename(columns={"rid": "r2"}), on="a", how="left", npartitions=3)]),
+        "map_overlap": lambda: s.map_overlap(lambda x: x.rolling(2).sum(), 1, 0, meta=s._meta) + s.map_overlap(lambda x: x.rolling(2).sum(), 2, 0, meta=s._meta),
+        "loc": lambda: dx.concat([d.loc[5:20], d.loc[6:20], d.loc[5:21]]),
+        "partitions": lambda: dx.concat([d.partitions[[0, 1]], d.partitions[[1, 2]], d.partitions[[1, 0]]]),
+        "unknown_repartition": lambda: dx.concat([u.repartition(npartitions=7), u.repartition(npartitions=8), u.repartition(npartitions=13)]),
+        "drop_duplicates": lambda: dx.concat([d[["a", "c"]].drop_duplicates(split_out=2), d[["a", "c"]].drop_duplicates(subset=["a"], split_out=2)]),
+        "resample_like": lambda: dx.concat([d.set_index("c").b.to_frame(), d.set_index("c", npartitions=2).b.to_frame()]),
+    }
+    return out
+
+
+PAIR_NAMES = ["quantile", "quantile_list", "frame_quantile", "rolling", "shift", "diff", "nlargest", "head", "cum", "value_counts", "groupby_split", "sum_split", "shuffle_branch",
+              "repartition_div", "repartition_size", "sort_np", "merge_bcast", "merge_how", "map_overlap", "loc", "partitions", "unknown_repartition", "drop_duplicates", "resample_like"]
+
+
+def _mk_pair(name):
+    def f():
+        return _pairs()[name]()
+    f.__name__ = "_pair_" + name
+    return f
+
+
 def _t_preoptimized_operand():
     pdf, d = _t_base(40, 4)
     inner = ((d.b + 1) * 2).optimize()
@@ -203,7 +251,7 @@ def _t_preoptimized_operand():
 
 TARGETED = [_t_two_repartitions_more, _t_two_repartitions_str_index, _t_two_shuffles_same_frame, _t_two_tree_reductions, _t_two_setindex, _t_preoptimized_operand,
             _t_nested_fused, _t_bcast_in_fused, _t_partitions_shuffle, _t_tree, _t_tree_scalar, _t_staged, _t_bcast_join, _t_repart_div, _t_repart_more,
-            _t_repart_size, _t_cum, _t_overlap, _t_persist, _t_delayed, _t_setindex, _t_sort, _t_merge_hash, _t_concat, _t_vc]
+            _t_repart_size, _t_cum, _t_overlap, _t_persist, _t_delayed, _t_setindex, _t_sort, _t_merge_hash, _t_concat, _t_vc] + [_mk_pair(n) for n in PAIR_NAMES]
 
 
 def run_case(case):
